@@ -166,6 +166,10 @@ def _fold_het_linear(het):
     except (Refuse, Raised):
         return None
     sets = [t for t in fo.trace if isinstance(t, Sym) and t.fn in ("setitem", "augitem")]
+    from ..fold import escapes
+
+    if escapes(fo.trace, r):
+        return None
     if any(t.fn == "augitem" or t.args[0] is not r for t in sets) or nf(r) not in ("np.zeros_like(IMG, dtype=IMG.dtype)", "np.zeros(IMG.shape, dtype=IMG.dtype)", "np.zeros((4, 5, 3), dtype=IMG.dtype)"):
         return None
     got = sorted((nf(t.args[1]), nf(t.args[2])) for t in sets)
@@ -209,6 +213,10 @@ def _fold_het_threshold(g):
         except (Refuse, Raised):
             return None
         sets = [t for t in fo.trace if isinstance(t, Sym) and t.fn in ("setitem", "augitem")]
+        from ..fold import escapes
+
+        if escapes(fo.trace, r):
+            return None
         if not isinstance(r, Arr) or tuple(r.shape) != (4, 5) or any(x not in (False, 0) for row in r.data for x in row):
             return None
         if len(sets) != 2 or any(t.fn != "setitem" or t.args[0] is not r or t.args[2] is not True for t in sets):
